@@ -237,10 +237,10 @@ class AirTouchSocket(Generic[comms.Hdr]):
         # Drop expired messages
         now = self._loop.time()
         for i in reversed(range(len(self._message_queue))):
-            entry = self._message_queue[i]
-            if now >= entry.expiry:
+            queued_entry = self._message_queue[i]
+            if now >= queued_entry.expiry:
                 del self._message_queue[i]
-                self._log_dropped_message(entry, "expired")
+                self._log_dropped_message(queued_entry, "expired")
 
         if len(self._message_queue) >= MAX_MESSAGE_QUEUE_SIZE:
             raise QueueOverflowError
